@@ -15,7 +15,7 @@ from pathlib import Path
 from ..common import REPO, Unsupported
 from . import models as M
 from .models import Ctx
-from .sym import SBool, SList, SSet, band, bite, bnot, bor, guard_of, is_sym, lift, merge, wrap
+from .sym import GList, SBool, SList, SSet, band, bite, bnot, bor, guard_of, is_sym, lift, merge, wrap
 
 SRC = REPO / "src" / "y0"
 MODULES = {
@@ -401,7 +401,7 @@ class Interp:
 
     def for_stmt(self, s, fr):
         it = self.eval(s.iter, fr)
-        items = SList.of(it).items if isinstance(it, (SSet, SList)) else [(True, x) for x in self.iterate(it)]
+        items = SList.of(it).items if isinstance(it, (SSet, SList, GList)) else [(True, x) for x in self.iterate(it)]
         loop = LoopState()
         pc0 = Ctx.pc
         for g, x in items:
@@ -473,12 +473,13 @@ class Interp:
         return tuple(self.eval(x, fr) for x in e.elts)
 
     def e_List(self, e, fr):
-        out = []
+        out = GList()
         for x in e.elts:
             if isinstance(x, ast.Starred):
                 out.extend(self.iterate_any(self.eval(x.value, fr)))
             else:
                 out.append(self.eval(x, fr))
+        out.guards = [True] * len(out)
         return out
 
     def iterate_any(self, v):
@@ -644,6 +645,8 @@ class Interp:
     def contains(self, coll, x):
         if isinstance(coll, SSet):
             return coll.mem(x)
+        if isinstance(coll, GList):
+            coll = SList.of(coll)
         if isinstance(coll, SList):
             return bor(*[g for g, y in coll.items if y == x])
         if isinstance(coll, M.SymGraphBase):
@@ -761,7 +764,7 @@ class Interp:
                 it = self.eval(gen.iter, f2)
             finally:
                 Ctx.pc = saved
-            items = SList.of(it).items if isinstance(it, (SSet, SList)) else [(True, x) for x in self.iterate(it)]
+            items = SList.of(it).items if isinstance(it, (SSet, SList, GList)) else [(True, x) for x in self.iterate(it)]
             for h, x in items:
                 env2 = dict(env)
                 f3 = Frame(env2)
@@ -843,6 +846,8 @@ class Interp:
 
         if isinstance(fn, (SetMethod, ListMethod)):
             return fn(*args, **kwargs)
+        args = [SList.of(a) if isinstance(a, GList) and a.symbolic() else a for a in args]
+        kwargs = {k: (SList.of(a) if isinstance(a, GList) and a.symbolic() else a) for k, a in kwargs.items()}
         if fn is functools.partial:
             return Partial(args[0], args[1:], kwargs)
         sym = any(isinstance(a, (SSet, SList, SBool, SymMixed, M.SymGraphBase, Judgement)) for a in list(args) + list(kwargs.values()))
@@ -971,6 +976,10 @@ class ListMethod:
         if n == "append":
             if isinstance(s, SList):
                 s.items.append((Ctx.pc, args[0]))
+                return None
+            if isinstance(s, GList):
+                list.append(s, args[0])
+                s.guards.append(Ctx.pc)
                 return None
             if not is_sym(Ctx.pc):
                 s.append(args[0])
@@ -1226,6 +1235,8 @@ NX_FUNCS = {
     "topological_sort": nx_topological_sort,
     "all_simple_paths": M.nx_all_simple_paths,
     "set_node_attributes": nx_set_node_attributes,
+    "transitive_closure_dag": M.nx_transitive_closure_dag,
+    "transitive_closure": M.nx_transitive_closure_dag,
     "edge_boundary": M.nx_edge_boundary,
     "node_boundary": M.nx_node_boundary,
 }
